@@ -57,12 +57,14 @@ VARIABLES clock,
           timers,   \* timers[n] : function addr -> Seq(due time): entries of the outbound handshake timer wheel
                     \* (keyed by overlay address only, as in the code: an entry outlives the pending handshake that added it)
           early,    \* history: some retransmission happened before the pending handshake's own back-off delay had passed
+          trust,    \* trust[n] : the peers whose certificates verify against n's CA pool and blocklist NOW (Trusts[n] at start and at
+                    \* most that: a reload of pki.ca / pki.blocklist changes it, also while a handshake is pending)
           bad       \* bad[n] : function addr -> set of underlay addresses blocked in the remote list of addr
                     \* (RemoteList.badRemotes: the list lives in the lighthouse cache, so it OUTLIVES the pending handshake that
                     \* blocked an address -- a later handshake for the same address still skips it -- until a handshake with
                     \* that address completes: RefreshFromHandshake)
 
-vars == <<clock, msgs, pend, tuns, hosts, out, tunout, sends, timers, early, bad>>
+vars == <<clock, msgs, pend, tuns, hosts, out, tunout, sends, timers, early, bad, trust>>
 
 Bad(n, a) == IF a \in DOMAIN bad[n] THEN bad[n][a] ELSE {}
 SetBad(n, a, S) == bad' = [bad EXCEPT ![n] = [b \in (DOMAIN bad[n] \cup {a}) |-> IF b = a THEN S ELSE bad[n][b]]]
@@ -112,6 +114,7 @@ Init == /\ clock = 0
         /\ out = <<>> /\ tunout = 0 /\ sends = 0
         /\ timers = [n \in Nodes |-> [a \in {} |-> <<>>]] /\ early = FALSE
         /\ bad = [n \in Nodes |-> [a \in {} |-> {}]]
+        /\ trust = Trusts
 
 (* ---- the outbound handshake timer fired for address a: handleOutbound(a, false) ---- *)
 \* One firing as a function on s = [pd, tm, ms, em, early]: pd = pend[n], tm = timer entries of a,
@@ -153,7 +156,7 @@ NewPending(q) == [ready |-> FALSE, idx |-> 0, tries |-> 0, hs1 |-> 0, queue |-> 
 TunSend(n, a, ok) ==
     /\ sends < MaxTunSends /\ sends' = sends + 1
     /\ a \notin Own[n]
-    /\ tunout' = 0 /\ UNCHANGED <<early, bad>>
+    /\ tunout' = 0 /\ UNCHANGED <<early, bad, trust>>
     /\ IF a \in DOMAIN hosts[n] /\ ~ok
          THEN NoEmit /\ UNCHANGED <<msgs, pend, tuns, hosts, clock, timers>>      \* outbound firewall drops it
        ELSE IF a \in DOMAIN hosts[n]
@@ -187,7 +190,7 @@ TunSendBurst(n, a, oks) ==
     /\ Len(oks) >= 1
     /\ sends < MaxTunSends /\ sends' = sends + 1
     /\ a \notin Own[n]
-    /\ tunout' = 0 /\ UNCHANGED <<early, bad>>
+    /\ tunout' = 0 /\ UNCHANGED <<early, bad, trust>>
     /\ IF a \in DOMAIN hosts[n]
          THEN LET t  == tuns[n][Primary(n, a)]
                   na == Len(SelectSeq(oks, LAMBDA b : b)) IN
@@ -223,7 +226,7 @@ Retry(n, a, k) ==
              /\ msgs' = s.ms
              /\ Emit(s.em)
              /\ early' = s.early
-    /\ UNCHANGED <<tuns, hosts, clock, sends, bad>>
+    /\ UNCHANGED <<tuns, hosts, clock, sends, bad, trust>>
 
 (* ---- stage 1 received: beginHandshake ---- *)
 RecvHs1(n, id, via) ==
@@ -234,8 +237,8 @@ RecvHs1(n, id, via) ==
     IN
     /\ m.kind = "hs1"
     /\ tunout' = 0
-    /\ UNCHANGED <<clock, sends, timers, early>>
-    /\ IF c \notin Trusts[n] \/ SetOf(va) \cap Own[n] # {}
+    /\ UNCHANGED <<clock, sends, timers, early, trust>>
+    /\ IF c \notin trust[n] \/ SetOf(va) \cap Own[n] # {}
          THEN NoEmit /\ UNCHANGED <<msgs, tuns, hosts, pend, bad>>      \* certificate refused / "myself"
        ELSE IF first \in DOMAIN hosts[n] /\ \E k \in 1..Len(hosts[n][first]) : tuns[n][hosts[n][first][k]].hs1 = id
          THEN \* ErrAlreadySeen: only the cached reply is resent
@@ -276,9 +279,9 @@ RecvHs2(n, id, via, late) ==
     IN
     /\ m.kind = "hs2"
     /\ sends' = sends + Len(late)
-    /\ UNCHANGED <<clock, early>>
+    /\ UNCHANGED <<clock, early, trust>>
     /\ (late # <<>> => \E a \in DOMAIN pend[n] : /\ pend[n][a].ready /\ pend[n][a].idx = m.initIdx /\ m.sess = pend[n][a].hs1
-                                                /\ c \in Trusts[n] /\ SetOf(m.cert) \cap Own[n] = {} /\ a \in SetOf(m.cert))
+                                                /\ c \in trust[n] /\ SetOf(m.cert) \cap Own[n] = {} /\ a \in SetOf(m.cert))
     /\ IF ~(\E a \in DOMAIN pend[n] : pend[n][a].ready /\ pend[n][a].idx = m.initIdx)
          THEN NoEmit /\ tunout' = 0 /\ UNCHANGED <<msgs, pend, tuns, hosts, timers, bad>>      \* no pending handshake: orphan
          ELSE LET a == CHOOSE a \in DOMAIN pend[n] : pend[n][a].ready /\ pend[n][a].idx = m.initIdx
@@ -287,7 +290,7 @@ RecvHs2(n, id, via, late) ==
               IN
               IF m.sess # p.hs1
                 THEN NoEmit /\ tunout' = 0 /\ UNCHANGED <<msgs, pend, tuns, hosts, timers, bad>>  \* not the answer to our stage 1: rejected, nothing changes
-              ELSE IF c \notin Trusts[n] \/ SetOf(m.cert) \cap Own[n] # {}
+              ELSE IF c \notin trust[n] \/ SetOf(m.cert) \cap Own[n] # {}
                 THEN \* invalid certificate / "myself": the handshake is abandoned
                      /\ pend' = [pend EXCEPT ![n] = without]
                      /\ NoEmit /\ tunout' = 0 /\ UNCHANGED <<msgs, tuns, hosts, timers, bad>>
@@ -338,7 +341,7 @@ Roamed(t, via) == IF via = t.remote THEN t
 RecvData(n, id, via) ==
     LET m == msgs[id] IN
     /\ m.kind \in {"data", "test", "testreply", "close"}
-    /\ UNCHANGED <<clock, pend, sends, timers, early, bad>>
+    /\ UNCHANGED <<clock, pend, sends, timers, early, bad, trust>>
     /\ IF m.respIdx \in DOMAIN tuns[n] /\ tuns[n][m.respIdx].key = m.key /\ tuns[n][m.respIdx].peer = m.src
           /\ m.ctr \notin tuns[n][m.respIdx].rx
          THEN LET t == [Roamed(tuns[n][m.respIdx], via) EXCEPT !.rx = @ \cup {m.ctr}] IN
@@ -374,7 +377,14 @@ Tick == /\ clock < MaxClock
         /\ NoOverdue
         /\ clock' = clock + 1
         /\ NoEmit /\ tunout' = 0
-        /\ UNCHANGED <<msgs, pend, tuns, hosts, sends, timers, early, bad>>
+        /\ UNCHANGED <<msgs, pend, tuns, hosts, sends, timers, early, bad, trust>>
+
+\* pki.ca / pki.blocklist reloaded at node n: from now on the certificates of S verify (C05: a handshake completes only with
+\* a peer whose certificate verifies when the handshake message is handled -- not when the handshake was started)
+Retrust(n, S) == /\ S \subseteq Trusts[n]
+                 /\ trust' = [trust EXCEPT ![n] = S]
+                 /\ NoEmit /\ tunout' = 0
+                 /\ UNCHANGED <<clock, msgs, pend, tuns, hosts, sends, timers, early, bad>>
 
 Deliver == \E n \in Nodes, id \in 1..Len(msgs) : \E via \in Nodes \ {n} :
               RecvHs1(n, id, via) \/ RecvHs2(n, id, via, <<>>) \/ RecvData(n, id, via)
@@ -392,6 +402,11 @@ NextBurst == \/ Next
              \/ /\ Len(msgs) < MaxMsgs
                 /\ \E n \in Nodes, a \in Addrs : \E oks \in BurstFlags : TunSendBurst(n, a, oks)
 SpecBurst == Init /\ [][NextBurst]_vars
+
+\* the same system when trust may be withdrawn and given back at any time (MC_HsManager_trust.cfg)
+NextTrust == \/ Next
+             \/ \E n \in Nodes : \E x \in Trusts[n] : Retrust(n, trust[n] \ {x}) \/ Retrust(n, Trusts[n])
+SpecTrust == Init /\ [][NextTrust]_vars
 
 -----------------------------------------------------------------------------
 (* Structural invariants of the hostmap (C28/C29 at system level) *)
